@@ -27,6 +27,11 @@ func genTrackName(r *Rng, safeOnly bool) string {
 		}
 		sb.WriteString(ch)
 	}
+	if r.Chance(6) {
+		// a hidden file whose second character is one --filename escapes with a backslash: the escaped pattern
+		// then begins with `.\` without naming the current directory (D85)
+		return "." + Pick(r, []string{"?", "*", "[", "]"}) + Pick(r, []string{".dat", "x.bin", "a]"})
+	}
 	s := strings.TrimRight(sb.String(), " ") // trailing blanks make a file name git itself handles specially
 	if s == "" || s == "." || s == ".." {
 		s = "f"
@@ -564,6 +569,12 @@ func c19Sequence(c *Ctx, i int, r *Rng, add func(line, impl, cas string)) {
 		os.WriteFile(filepath.Join(dir, ".gitattributes"), []byte(pre), 0o644)
 	}
 	pats := []string{"/data.bin", "data.bin", "*.bin", "sub/data.bin", "/sub/data.bin", "sub/*.bin", "other.bin", "/other.bin"}
+	if len(preTracked) > 0 {
+		// `sub/*.bin` is the pattern of the overriding line of that file: tracking it rewrites THAT line (the first
+		// one with this pattern, model TrkSeq.replaceFirst) and untracking removes it — the hand-written reference
+		// below keeps the lines of `pre` that do not track, so the sequences of this family leave the pattern alone
+		pats = []string{"/data.bin", "data.bin", "*.bin", "sub/data.bin", "/sub/data.bin", "other.bin", "/other.bin"}
+	}
 	probes := []string{"data.bin", "sub/data.bin", "sub/deep/data.bin", "other.bin", "sub/other.bin", "deep/sub/data.bin", "x.txt", "sub/x.txt"}
 	type st struct{ lockable bool }
 	active := map[string]*st{}
